@@ -422,6 +422,42 @@ def run(program, res, tier):
         else:
             res.fail_at("C24-S2", m, f"{mname}:backing-field",
                         f"{mname} reads {sorted(reads)}: a second source of truth besides self.impl")
+    # ---- copy protocol: the elements live in an instance attribute holding a mutable mapping, so the default protocol of the copy module
+    # (object.__reduce_ex__: a new object with a shallow copy of __dict__) hands out a second OrderedSet on the same mapping
+    def _ctor_call(v):
+        return isinstance(v, ast.Call) and (unparse(v.func) in ("OrderedSet", "type(self)", "self.__class__"))
+
+    def _sibling_call(v, names):
+        return isinstance(v, ast.Call) and isinstance(v.func, ast.Attribute) and unparse(v.func.value) == "self" and v.func.attr in names and not v.args
+
+    cm = cls.methods.get("__copy__")
+    if cm is None:
+        res.fail_at("C24-S2", cls.methods["copy"], "copy-protocol:__copy__-missing",
+                    "OrderedSet keeps its elements in the instance attribute self.impl and defines no __copy__: copy.copy(s) falls back to the default protocol, "
+                    "which builds a new object around a shallow copy of __dict__, i.e. around the same OrderedDict — an add / discard / update on either object "
+                    "changes both, where a copied plain set is independent")
+    else:
+        res.analysed(cm)
+        built = False
+        bad = None
+        for mm in (cm, cls.methods["copy"]):
+            rets = [n for n in ast.walk(mm.node) if isinstance(n, ast.Return)]
+            if not rets:
+                bad = (mm, None)
+            for r_ in rets:
+                if _ctor_call(r_.value) and r_.value.args:
+                    built = True
+                elif _sibling_call(r_.value, {"copy", "__copy__"} - {mm.name}):
+                    pass
+                else:
+                    bad = (mm, r_)
+        if bad is not None or not built:
+            mm, r_ = bad if bad is not None else (cm, None)
+            res.fail_at("C24-S2", mm, f"copy-protocol:{mm.name}-not-fresh",
+                        f"{mm.name} returns `{unparse(r_.value) if r_ is not None and r_.value is not None else None}`: a copy has to be a new OrderedSet built from the elements "
+                        f"(the constructor re-inserts them into a mapping of its own)", r_ if r_ is not None else mm.node)
+        else:
+            res.ok("C24-S2", "copy() and __copy__ (the copy module's hook) both return a new OrderedSet built from the elements; the default shallow copy of __dict__ is never used")
     it = cls.methods["__iter__"]
     r = [n for n in ast.walk(it.node) if isinstance(n, ast.Return)]
     if r and any(w in unparse(r[0].value) for w in ("reversed", "sorted", "set(")):
